@@ -218,7 +218,7 @@ def r2_r3(cx):
     eng, tables = engine(cx)
     upd = m.one(r"^%s::update$" % TASK)
     eng.branch_adts = ("EventAction",)
-    eng.effect_callees = EFFECTS
+    eng.set_effects(EFFECTS, [q for q in m.fns if EFFECTS.search(q)])
     try:
         seen_arms = set()
         rejected = {}
@@ -253,7 +253,7 @@ def r2_r3(cx):
         cx.note("C05.R2/R3: update explored from 13 entry states; arms recognised: %s (of %s)" % (sorted(seen_arms), sorted(allarms)))
     finally:
         eng.branch_adts = ()
-        eng.effect_callees = None
+        eng.set_effects(None)
     cx.floor("C05.R2", 7)
     cx.floor("C05.R3", 7)
 
